@@ -581,6 +581,89 @@ theorem inv_reload {c : Cfg} (hc : Inv c) : Inv (reload c).1 := by
   rw [reload_eq hc]
   exact ⟨hc.nodup, fun s h => h, hc.keysOk⟩
 
+/-! loading an arbitrary file: everything but the distinctness of the endpoints comes for free -/
+
+theorem mem_addUsed_self (u : List Sock) (s : Sock) : s ∈ addUsed u s := by
+  unfold addUsed
+  split
+  · assumption
+  · simp
+
+theorem mem_addUsed_of_mem {u : List Sock} {x : Sock} (s : Sock) (h : x ∈ u) : x ∈ addUsed u s := by
+  unfold addUsed
+  split
+  · exact h
+  · exact List.mem_append_left _ h
+
+theorem loadNodes_inv {l : List (String × Json)} {acc nodes' : List (Name × Node)} {u u' : List Sock}
+    (h : loadNodes l acc u = some (nodes', u'))
+    (hk : (keys acc).Nodup) (hr : ∀ s ∈ fm Node.eps acc, s ∈ u) :
+    (keys nodes').Nodup ∧ (∀ s ∈ fm Node.eps nodes', s ∈ u') ∧ ∀ s ∈ u, s ∈ u' := by
+  induction l generalizing acc u with
+  | nil =>
+    simp only [loadNodes, Option.some.injEq, Prod.mk.injEq] at h
+    obtain ⟨h1, h2⟩ := h
+    subst h1; subst h2
+    exact ⟨hk, hr, fun _ h => h⟩
+  | cons e t ih =>
+    simp only [loadNodes] at h
+    cases hd : nodeOfJson e.2 with
+    | none => rw [hd] at h; cases h
+    | some nd =>
+      rw [hd] at h
+      simp only at h
+      have hstep : ∀ s ∈ u, s ∈ addUsed (addUsed (addUsed u nd.app) nd.qnodeos) nd.vnode :=
+        fun s hs => mem_addUsed_of_mem _ (mem_addUsed_of_mem _ (mem_addUsed_of_mem _ hs))
+      obtain ⟨r1, r2, r3⟩ := ih h (keys_aset_nodup hk) (by
+        intro s hs
+        rcases mem_fm_aset hs with hs | hs
+        · exact hstep s (hr s hs)
+        · simp only [Node.eps, List.mem_cons, List.not_mem_nil, or_false] at hs
+          rcases hs with hs | hs | hs <;> subst hs
+          · exact mem_addUsed_of_mem _ (mem_addUsed_of_mem _ (mem_addUsed_self _ _))
+          · exact mem_addUsed_of_mem _ (mem_addUsed_self _ _)
+          · exact mem_addUsed_self _ _)
+      exact ⟨r1, r2, fun s hs => r3 s (hstep s hs)⟩
+
+theorem loadNets_inv {l : List (String × Json)} {c c' : Cfg} (h : loadNets l c = some c')
+    (hk : KeysOk c.networks) (hr : ∀ s ∈ c.eps, s ∈ c.used) :
+    KeysOk c'.networks ∧ ∀ s ∈ c'.eps, s ∈ c'.used := by
+  induction l generalizing c with
+  | nil =>
+    simp only [loadNets, Option.some.injEq] at h
+    subst h
+    exact ⟨hk, hr⟩
+  | cons e t ih =>
+    simp only [loadNets] at h
+    split at h
+    · split at h
+      · split at h
+        · rename_i topo nodes used _ hn
+          have hnodes := loadNodes_inv hn (by simp [keys]) (by simp [fm])
+          apply ih h
+          · refine ⟨keys_aset_nodup hk.1, ?_⟩
+            intro e' he'
+            rcases mem_aset he' with h1 | h1
+            · subst h1; exact hnodes.1
+            · exact hk.2 e' h1
+          · intro s hs
+            have hs' : s ∈ fm Net.eps (aset e.1 ⟨topo, nodes⟩ c.networks) := hs
+            rcases mem_fm_aset hs' with h1 | h1
+            · exact hnodes.2.2 s (hr s h1)
+            · exact hnodes.2.1 s h1
+        · cases h
+      · cases h
+    · cases h
+
+/-- a file that loads and whose endpoints are pairwise distinct gives a configuration that
+satisfies the whole invariant (keys distinct and all endpoints reserved come for free) -/
+theorem inv_of_load {j : Json} {c : Cfg} (h : load j = some c) (hnd : c.eps.Nodup) : Inv c := by
+  unfold load readFromFile at h
+  split at h
+  · have := loadNets_inv h (by simp [KeysOk, Cfg.empty, keys]) (by simp [Cfg.empty, Cfg.eps, netsEps])
+    exact ⟨hnd, this.2, this.1⟩
+  · cases h
+
 theorem inv_step (osFree : Port → Bool) {c : Cfg} (hc : Inv c) (e : Edit) : Inv (step osFree c e).1 := by
   cases e with
   | addNode name net sp nb => exact inv_addNode osFree hc name net sp nb
